@@ -58,6 +58,10 @@ class C05(Check):
             k = min(len(v) for v in ch[1].values())
             ch[1] = {kk: v[:k - 1] + [(v[k - 1][0], v[-1][1])] for kk, v in ch[1].items()}
             cases.append({'f': f, 'nv': 2, 'sigs': sg, 'chunkings': ch, 'past': False, 'n': 3})
+        # the listed known finding KF-C05-late-start, deterministically
+        LS = ('sincet', 1, 1, ('var', 0), ('const', 0))
+        sg = [[[12, 0], [18, 0]]]
+        cases.append({'f': LS, 'nv': 1, 'sigs': sg, 'chunkings': [{'0': [(0, 2)]}, {'0': [(0, 1), (1, 2)]}], 'past': False, 'n': 2})
         for (f, nv) in items:
             if fml.size(f) > 20 or not fml.fvars(f):
                 continue
@@ -154,8 +158,15 @@ class C05(Check):
             if len(ks) == 2 and not fml.fvars(ks[0]) and not fml.fvars(ks[1]):
                 return True
             return any(const_binary(k) for k in ks)
+        from harness.c04 import timed_vars
+        late_timed = any(c['sigs'][i][0][0] != 0 for i in timed_vars(c['f']) if i < len(c['sigs']))
+        # a constant operand of a bounded operator is a signal that starts at 0: with any late variable the window looks before the common start
+        late_any = any(c['sigs'][i][0][0] != 0 for i in fml.fvars(c['f']) if i < len(c['sigs']))
+        under_timed_const = bool(fml.ops(c['f']) & (fml.TUN | fml.TBIN)) and late_any
         if const_binary(c['f']):
             sig['shape'] = 'const_binary'
+        elif late_timed or under_timed_const:
+            sig['shape'] = 'late_start_bounded'
         elif fml.ops(c['f']) & {'oncet', 'histt', 'sincet', 'evt', 'alwt'}:
             sig['shape'] = 'bounded_window'
         else:
